@@ -245,7 +245,7 @@ func (c *StructCodec) Read(data []byte, ptr unsafe.Pointer, wt plenccore.WireTyp
 			}
 			offset += n
 			fl = int(v) + offset
-			if fl > l {
+			if v > uint64(l-offset) {
 				return 0, fmt.Errorf("length %d of field %d of %s exceeds data length", fl, index, c.rtype.Name())
 			}
 		}
